@@ -41,7 +41,10 @@ ENV = {'classes': [
     [MOD + 'S', [_f('p', ['obj', MOD + 'P']), _f('q', ['obj', MOD + 'Q'], noneable=True, default=None),
                  _f('z', 'any', noneable=True, default=None)]],
 ]}
-MODEL_CLASSES = {c[0] for c in ENV['classes']}
+# A class that is importable but not registered (auto_register = False): seen only with auto_import.
+N_CLASS = [MOD + 'N', [_f('x', 'int'), _f('w', 'any', noneable=True, default=None)]]
+ENV_IMPORT = {'classes': ENV['classes'] + [N_CLASS]}
+MODEL_CLASSES = {c[0] for c in ENV_IMPORT['classes']}
 
 # Which handle semantics of the memory file system the Lean model is asked to mirror: 'shared'
 # (the tree as it is: all handles of a file share one position, F130) or 'perhandle'
@@ -142,6 +145,17 @@ def is_model_tree(t):
     if isinstance(x, dict) and 'd' in x and any(
         isinstance(k, str) and any(0xD800 <= ord(c) < 0xE000 for c in k) for k, _ in x['d']):
       return True
+    return False
+  return not tree_has(t, bad)
+
+
+def is_model_tree_any(t):
+  """As is_model_tree, for any class (the environment is built from the real schemas)."""
+  def bad(x):
+    if isinstance(x, str) and any(0xD800 <= ord(c) < 0xE000 for c in x):
+      return True
+    if isinstance(x, dict) and x.get('f') == 'nan':
+      return False
     return False
   return not tree_has(t, bad)
 
@@ -557,6 +571,34 @@ def lower_ops(ops):
   return out
 
 
+def copy_value(v):
+  import copy
+  try:
+    return copy.deepcopy(v)
+  except Exception:   # pylint: disable=broad-except
+    return v
+
+
+VSPEC_EXTRA = ['callable0', 'callable1', 'callable2', 'type0', 'type1', 'obj0', 'schemaP', 'schemaR', 'schemaS',
+               'schemaT', 'field_desc']
+
+
+def gen_vspec_case(rng):
+  from harness import typing_vocab as tv
+  if rng.chance(0.06):
+    return {'kind': 'vspec', 'extra': rng.choice(VSPEC_EXTRA)}
+  g = tv.SpecGen(rng)
+  d = g.spec(rng.randint(0, 3))
+  probes = g.boundary(d)[:10] + [['N'], ['M']]
+  case = {'kind': 'vspec', 'desc': d, 'probes': probes}
+  if rng.chance(0.15):
+    # malformed stream: one top-level mutation of the JSON the spec produces
+    case['mutate'] = rng.choice([['add', 'foo'], ['add', 'size_'], ['drop', 'element_value'],
+                                 ['drop', 'element_values'], ['drop', 'values'], ['drop', 'candidates'],
+                                 ['drop', 't'], ['drop', 'default']])
+  return case
+
+
 def stale_mask(ops):
   """For a handle history: True at the positions whose output depends on a stale handle (one
   opened before a later 'w' of the same path) — reads through it, and everything read from a path
@@ -687,8 +729,12 @@ class _Impl:
     from harness import c05_classes
     self.pg, self.pg_io, self.copy, self.pickle, self.tempfile = pg, pg_io, copy, pickle, tempfile
     self.classes = c05_classes.CLASSES
+    self.classes = dict(self.classes, N=c05_classes.N)
     self.cls_of_key = {c.__type_name__: c for c in self.classes.values()}
     self.mod = c05_classes
+    from harness import typing_vocab as tv
+    tv._CLS = c05_classes.VOCAB      # module-level twins: nameable in JSON   # pylint: disable=protected-access
+    self.tv = tv
     env = self.env_from_classes()
     if env != ENV:
       raise AssertionError('harness ENV out of sync with harness/c05_classes.py: %s' % json.dumps(env))
@@ -750,7 +796,12 @@ class _Impl:
       items = v.sym_items() if isinstance(v, pg.Dict) else v.items()
       return {'d': [[self.wire_key(k), self.to_wire(x)] for k, x in items]}
     if isinstance(v, pg.Object):
-      return {'o': type(v).__type_name__, 'a': [[str(k), self.to_wire(x)] for k, x in v.sym_items()]}
+      return {'o': type(v).__serialization_key__, 'a': [[str(k), self.to_wire(x)] for k, x in v.sym_items()]}
+    if isinstance(v, pg.KeyPath):
+      return str(v)                       # a key path is its path string (which is also its JSON form)
+    if isinstance(v, type) and '<locals>' not in v.__qualname__:
+      # a class value is `{'_type': 'type', 'name': …}`: an object of the pseudo-class 'type'
+      return {'o': 'type', 'a': [['name', '%s.%s' % (v.__module__, v.__qualname__)]]}
     return {'opaque': type(v).__name__}
 
   def wire_key(self, k):
@@ -910,12 +961,119 @@ class _Impl:
 
   # -- case kinds -----------------------------------------------------------------------------
   def codec(self, case):
-    pg = self.pg
-    t, ap = case['value'], case['ap']
+    t = case['value']
     try:
       v = self.build(t)
     except Exception as e:   # pylint: disable=broad-except
       return {'build_error': type(e).__name__, 'msg': str(e)[:200]}
+    return self.codec_value(case, v, t)
+
+  # -- library classes compared through a class environment built from their real schemas ------
+  def dyn_value(self, case):
+    pg = self.pg
+    what = case['what']
+    P, Q = self.classes['P'], self.classes['Q']
+    if what in ('hyper', 'dnaspec'):
+      self._names = 0
+      h = pg.Dict(x=self.build_geno(case['expr']))
+      return pg.dna_spec(h) if what == 'dnaspec' else h
+    if what == 'diff':
+      a = Q(a=pg.Dict(u=1, v=[1, 2]), n=3)
+      b = Q(a=pg.Dict(u=case['expr'], v=[1, 3]), n=None, b=True)
+      return pg.diff(a, b)
+    if what == 'functor':
+      return pg.Dict(f=self.mod.vocab_functor(case['expr']), g=self.mod.vocab_functor(1, y=[case['expr'], (1, 'a')]))
+    raise AssertionError(what)
+
+  def kind_of(self, spec):
+    T = self.pg.typing
+    if isinstance(spec, T.Bool):
+      return 'bool'
+    if isinstance(spec, T.Int):
+      return 'int'
+    if isinstance(spec, T.Str):
+      return 'str'
+    if isinstance(spec, T.List) and isinstance(spec.element.value, T.Any) and spec.max_size is None:
+      return 'list'
+    if isinstance(spec, T.Dict) and spec.schema is None:
+      return 'dict'
+    return 'any'            # richer spec: the model only needs "accepts the values the library built"
+
+  def class_fields(self, cls):
+    T = self.pg.typing
+    fields = []
+    for k, f in cls.__schema__.fields.items():
+      spec = f.value
+      d = {'name': str(k), 'kind': self.kind_of(spec),
+           'noneable': bool(spec.is_noneable) or isinstance(spec, T.Any), 'frozen': bool(spec.frozen)}
+      if spec.has_default:
+        w = self.to_wire(spec.default)
+        if '"opaque"' not in json.dumps(w):
+          d['default'] = w
+      fields.append(d)
+    return fields
+
+  def geno_env(self):
+    from pyglove.core import geno
+    return [[c.__serialization_key__, self.class_fields(c)]
+            for c in (geno.Space, geno.Choices, geno.Float, geno.CustomDecisionPoint)]
+
+  def dyn_env(self, v):
+    """ENV extended with the schemas of every other pg.Object class occurring in `v` (None if a
+    class has non-constant keys or a default the tree wire cannot express)."""
+    pg = self.pg
+    T = pg.typing
+    found, uses_type = {}, [False]
+
+    def visit(x):
+      if isinstance(x, pg.Object):
+        found[type(x).__serialization_key__] = type(x)
+      if isinstance(x, type):
+        uses_type[0] = True
+      if isinstance(x, pg.Symbolic):
+        for _, c in x.sym_items():
+          visit(c)
+      elif isinstance(x, (list, tuple)):
+        for c in x:
+          visit(c)
+      elif isinstance(x, dict):
+        for c in x.values():
+          visit(c)
+    visit(v)
+    env = {'classes': list(ENV['classes'])}
+    known = {c[0] for c in ENV['classes']}
+    if uses_type[0]:
+      env['classes'].append(['type', [_f('name', 'str')]])
+    for key in sorted(found):
+      if key in known:
+        continue
+      fields = []
+      for k, f in found[key].__schema__.fields.items():
+        if not isinstance(k, T.ConstStrKey):
+          return None
+        spec = f.value
+        d = {'name': str(k), 'kind': self.kind_of(spec),
+             'noneable': bool(spec.is_noneable) or isinstance(spec, T.Any), 'frozen': bool(spec.frozen)}
+        if spec.has_default:
+          d['default'] = self.to_wire(spec.default)
+          if '"opaque"' in json.dumps(d['default']):
+            # a default the tree wire cannot express (e.g. the sentinel `Diff.MISSING`): the model sees a
+            # required field, which is the same thing on values that carry every attribute
+            del d['default']
+        fields.append(d)
+      env['classes'].append([key, fields])
+    return env
+
+  def dyn(self, case):
+    v = self.dyn_value(case)
+    t = self.to_wire(v)
+    out = self.codec_value({'ap': False}, v, t)
+    out['wire'] = t
+    return out
+
+  def codec_value(self, case, v, t):
+    pg = self.pg
+    ap = case['ap']
     built = self.to_wire(v)
     out = {'built_same': built == t}
     model = {}
@@ -924,11 +1082,12 @@ class _Impl:
       return {'to_json_error': j['err']}
     jw = self.jv_wire(j['ok'])
     model['json'] = jw
-    loaded = self.attempt(lambda: pg.from_json(pg.to_json(v), allow_partial=ap))
+    ai = case.get('auto_import', True)
+    loaded = self.attempt(lambda: pg.from_json(pg.to_json(v), allow_partial=ap, auto_import=ai))
     model['rt'] = {'ok': self.to_wire(loaded['ok'])} if 'ok' in loaded else loaded
     s = pg.to_json_str(v)
     model['json_str'] = self.jv_wire(json.loads(s))
-    loaded_s = self.attempt(lambda: pg.from_json_str(s, allow_partial=ap))
+    loaded_s = self.attempt(lambda: pg.from_json_str(s, allow_partial=ap, auto_import=ai))
     model['rt_str'] = {'ok': self.to_wire(loaded_s['ok'])} if 'ok' in loaded_s else loaded_s
     if case.get('opts'):
       kw = case['opts']
@@ -1101,6 +1260,170 @@ class _Impl:
       out['std'] = [sorted(o['n']) if isinstance(o, dict) and 'n' in o else o for o in std]
     self.reset_mem()
     return out
+
+  # -- value specs (state = what the public properties show) -----------------------------------
+  def opt_tree(self, v):
+    return {'absent': True} if self.pg.MISSING_VALUE == v else self.to_wire(v)
+
+  def vflags(self, spec):
+    return [bool(spec.is_noneable), self.opt_tree(spec.default), bool(spec.frozen)]
+
+  def vkey_wire(self, ks):
+    T = self.pg.typing
+    if isinstance(ks, T.ConstStrKey):
+      return ['c', ks.text]
+    if isinstance(ks, T.StrKey):
+      return ['k', ks.regex.pattern if ks.regex is not None else None]
+    if isinstance(ks, T.ListKey):
+      return ['lk', ks.min_value, ks.max_value]
+    if isinstance(ks, T.TupleKey):
+      return ['tk', ks.index]
+    return ['?', repr(ks)]
+
+  def vschema_wire(self, schema):
+    fields = []
+    for ks, f in schema.items():
+      md = f.metadata
+      fields.append(['field', self.vkey_wire(ks), self.vs_wire(f.value), f.description,
+                     self.to_wire(md) if md else {'absent': True}])
+    md = schema.metadata
+    return ['schema', fields, schema.name, bool(schema.allow_nonconst_keys),
+            self.to_wire(md) if md else {'absent': True}]
+
+  def vs_wire(self, spec):
+    T = self.pg.typing
+    F = self.vflags(spec)
+    name = lambda c: '%s.%s' % (c.__module__, c.__qualname__)
+    if isinstance(spec, T.Any):
+      return ['any', F]
+    if isinstance(spec, T.Bool):
+      return ['bool', F]
+    if isinstance(spec, T.Int):
+      return ['int', spec.min_value, spec.max_value, F]
+    if isinstance(spec, T.Float):
+      b = lambda x: None if x is None else self.ftok(float(x))
+      return ['float', b(spec.min_value), b(spec.max_value), F]
+    if isinstance(spec, T.Str):
+      return ['str', spec.regex.pattern if spec.regex is not None else None, F]
+    if isinstance(spec, T.Enum):
+      return ['enum', [self.to_wire(v) for v in spec.values], F]
+    if isinstance(spec, T.List):
+      return ['list', self.vs_wire(spec.element.value), spec.min_size, spec.max_size, F]
+    if isinstance(spec, T.Tuple):
+      if spec.fixed_length:
+        return ['tuplef', [self.vs_wire(f.value) for f in spec.elements], F]
+      return ['tuplev', self.vs_wire(spec.elements[0].value), spec.min_size, spec.max_size, F]
+    if isinstance(spec, T.Dict):
+      # the one hidden bit `to_json` consults: was the default given or generated from the schema
+      explicit = (not spec._use_generated_default       # pylint: disable=protected-access
+                  and self.pg.MISSING_VALUE != spec.default)
+      if not explicit:
+        F = [F[0], {'absent': True}, F[2]]
+      return ['dict', self.vschema_wire(spec.schema) if spec.schema is not None else None, explicit, F]
+    if isinstance(spec, T.Object):
+      return ['obj', name(spec.cls), F]
+    if isinstance(spec, T.Type):
+      d = spec.default
+      return ['type', name(spec.type), None if self.pg.MISSING_VALUE == d or d is None else name(d),
+              bool(spec.is_noneable), bool(spec.frozen)]
+    if isinstance(spec, T.Union):
+      return ['union', [self.vs_wire(c) for c in spec.candidates], F]
+    if isinstance(spec, T.Callable):
+      r = spec.return_value
+      return ['callable', [self.vs_wire(a) for a in spec.args], None if r is None else self.vs_wire(r), F]
+    return ['?', type(spec).__name__]
+
+  def vspec_build(self, case):
+    T = self.pg.typing
+    P = self.classes['P']
+    if 'desc' in case:
+      return self.tv.build(case['desc'])
+    return {
+        'callable0': lambda: T.Callable(),
+        'callable1': lambda: T.Callable([T.Int(), T.Str(regex='a.*')], returns=T.Bool()).noneable(),
+        'callable2': lambda: T.Callable([T.List(T.Int())]),
+        'type0': lambda: T.Type(P),
+        'type1': lambda: T.Type(P, default=P).noneable(),
+        'obj0': lambda: T.Object(P).noneable(),
+        'schemaP': lambda: self.classes['P'].__schema__,
+        'schemaR': lambda: self.classes['R'].__schema__,
+        'schemaS': lambda: self.classes['S'].__schema__,
+        'schemaT': lambda: self.classes['T'].__schema__,
+        'field_desc': lambda: T.Dict([T.Field('a', T.Int(), 'a field', {'m': (1, 2)}),
+                                      (T.StrKey(), T.Any())]),
+    }[case['extra']]()
+
+  def vspec_mutated(self, j, m):
+    j = dict(j)
+    if m[0] == 'add':
+      j[m[1]] = 1
+    else:
+      j.pop(m[1], None)
+    return j
+
+  def vspec_state(self, case):
+    """(state wire, is it inside the model) of the spec / schema of a case; None if it cannot be built."""
+    try:
+      spec = self.vspec_build(case)
+    except (TypeError, ValueError, KeyError):
+      return None
+    T = self.pg.typing
+    w = self.vschema_wire(spec) if isinstance(spec, T.Schema) else self.vs_wire(spec)
+    text = json.dumps(w)
+    return w, not ('"opaque"' in text or '"?"' in text or '"o"' in text or '"nan"' in text), isinstance(spec, T.Schema)
+
+  def vspec(self, case):
+    pg = self.pg
+    T = pg.typing
+    try:
+      spec = self.vspec_build(case)
+    except (TypeError, ValueError, KeyError) as e:
+      return {'build_error': type(e).__name__}
+    is_schema = isinstance(spec, T.Schema)
+    wire = self.vschema_wire if is_schema else self.vs_wire
+    j = self.attempt(lambda: pg.to_json(spec))
+    if 'err' in j:
+      return {'to_json_error': j['err']}
+    loaded = self.attempt(lambda: pg.from_json(pg.to_json(spec)))
+    model = {'json': self.attempt(lambda: self.jv_wire(j['ok'])).get('ok'),
+             'rt': {'ok': wire(loaded['ok'])} if 'ok' in loaded else loaded}
+    problems = []
+    for form, f in (('obj', lambda: pg.from_json(pg.to_json(spec))),
+                    ('str', lambda: pg.from_json_str(pg.to_json_str(spec))),
+                    ('str-indent', lambda: pg.from_json_str(pg.to_json_str(spec, json_indent=2)))):
+      res = self.attempt(f)
+      if 'err' in res:
+        problems.append('[%s] raises %s' % (form, res['err']))
+        continue
+      r = res['ok']
+      if type(r) is not type(spec):
+        problems.append('[%s] type' % form)
+      elif not (r == spec) or not pg.eq(r, spec):
+        if not (self.copy.deepcopy(spec) == spec):
+          problems.append('[%s] spec unequal to its own copy' % form)     # an equality defect (F231), not the codec
+        else:
+          problems.append('[%s] not equal' % form)
+      elif wire(r) != wire(spec):
+        problems.append('[%s] public state differs' % form)
+      elif not is_schema:
+        # behavioural equality: apply-probes
+        for pv in case.get('probes', []):
+          v = self.attempt(lambda: self.tv.to_py(pv))
+          if 'err' in v:
+            continue
+          a = self.attempt(lambda: self.tv.from_py(spec.apply(copy_value(v['ok']), allow_partial=True)))
+          b = self.attempt(lambda: self.tv.from_py(r.apply(copy_value(v['ok']), allow_partial=True)))
+          if a != b:
+            problems.append('[%s] apply(%s) differs: %s vs %s' % (form, json.dumps(pv)[:80], a, b))
+            break
+    if case.get('mutate'):
+      jm = self.vspec_mutated(j['ok'], case['mutate'])
+      res = self.attempt(lambda: pg.from_json(json.loads(json.dumps(jm))))
+      model = {'rt': {'ok': wire(res['ok'])} if 'ok' in res else res}
+      return {'model': model, 'problems': [], 'kind': type(spec).__name__ + ':mutated'}
+    return {'model': model, 'problems': problems, 'kind': type(spec).__name__,
+            'empty_tuple': '"t": []' in json.dumps(wire(spec)),
+            'empty_fixed_tuple': '["tuplef", []' in json.dumps(wire(spec))}
 
   # -- DNA ---------------------------------------------------------------------------------------
   def py_nest(self, n):
@@ -1410,6 +1733,21 @@ class C05(Prop):
       C05._impl = _Impl()
 
   # -- generation ---------------------------------------------------------------------------
+  def extra_checks(self, ctx):
+    """The class schemas the Lean theorem about DNASpec is stated over (`genoEnv`) are the schemas
+    of the real geno classes, as the harness derives class environments from real schemas."""
+    from harness.common import framework
+    self.setup_impl()
+    try:
+      got = framework.Driver(self.driver).run([{'op': 'geno_env'}])[0]['classes']
+    except Exception as e:   # pylint: disable=broad-except
+      ctx.broken.append({'kind': 'correspondence', 'name': 'C05 genoEnv', 'detail': 'driver: %s' % e})
+      return
+    want = C05._impl.geno_env()
+    if got != want:
+      ctx.broken.append({'kind': 'correspondence', 'name': 'C05 genoEnv vs the schemas of pg.geno classes',
+                         'detail': 'lean=%s real=%s' % (json.dumps(got)[:400], json.dumps(want)[:400])})
+
   def generate(self, rng, tier):
     quick = tier == 'quick'
     n_codec = 1400 if quick else 60000
@@ -1427,6 +1765,13 @@ class C05(Prop):
       if rng.chance(0.3):
         case['opts'] = {'hide_frozen': rng.chance(0.5), 'hide_default_values': rng.chance(0.7)}
       yield case
+    for i in range(60 if quick else 2500):
+      tg = TreeGen(rng)
+      inner = {'o': MOD + 'N', 'a': [['x', rng.choice([0, 7, -3])], ['w', tg.tree(rng.below(3))]]}
+      t = rng.choice([inner, {'l': [1, inner]}, {'d': [['k', inner], ['z', tg.tree(1)]]},
+                      {'o': MOD + 'Q', 'a': [['a', inner], ['b', False], ['n', None]]}])
+      yield {'kind': 'codec', 'value': t, 'ap': tree_has(t, lambda x: isinstance(x, dict) and 'm' in x),
+             'auto_import': rng.chance(0.6)}
     for i in range(n_load):
       sf = rng.chance(0.4)
       ad = (not sf) and rng.chance(0.35)
@@ -1444,6 +1789,14 @@ class C05(Prop):
       yield gen_hstore_case(rng)
     for i in range(300 if quick else 10000):
       yield gen_dna_case(rng)
+    for i in range(400 if quick else 12000):
+      yield gen_vspec_case(rng)
+    for i in range(200 if quick else 6000):
+      what = rng.weighted([(4, 'hyper'), (4, 'dnaspec'), (2, 'diff'), (2, 'functor')])
+      if what in ('hyper', 'dnaspec'):
+        yield {'kind': 'dyn', 'what': what, 'expr': gen_geno(rng, 2)}
+      else:
+        yield {'kind': 'dyn', 'what': what, 'expr': rng.choice([0, 5, 'x', None, -2])}
     if not quick:
       yield from self.exhaustive_paths()
     for i in range(n_spec):
@@ -1496,6 +1849,10 @@ class C05(Prop):
       return im.spec(case)
     if k == 'dna':
       return im.dna(case)
+    if k == 'vspec':
+      return im.vspec(case)
+    if k == 'dyn':
+      return im.dyn(case)
     raise AssertionError(k)
 
   def model_request(self, case):
@@ -1503,11 +1860,21 @@ class C05(Prop):
     if k == 'codec':
       if not is_model_tree(case['value']):
         return None
-      req = {'op': 'codec', 'env': ENV, 'value': case['value'], 'ap': case['ap']}
+      req = {'op': 'codec', 'env': ENV_IMPORT if case.get('auto_import') else ENV, 'value': case['value'],
+             'ap': case['ap']}
       if case.get('opts'):
         req['hide_frozen'] = case['opts']['hide_frozen']
         req['hide_default_values'] = case['opts']['hide_default_values']
       return req
+    if k == 'dyn':
+      self.setup_impl()
+      im = C05._impl
+      v = im.dyn_value(case)
+      t = im.to_wire(v)
+      env = im.dyn_env(v)
+      if env is None or '"opaque"' in json.dumps(t) or not is_model_tree_any(t):
+        return None
+      return {'op': 'codec', 'env': env, 'value': t, 'ap': False}
     if k in ('load', 'load_str'):
       req = {'op': k, 'env': ENV, 'json': case['json'], 'ap': case['ap']}
       if case.get('auto_dict'):
@@ -1523,6 +1890,16 @@ class C05(Prop):
       return {'op': 'store', 'cfg': 'patched', 'ops': ops}
     if k == 'dna':
       return {'op': 'dna', 'nest': case['nest'], 'meta': case['meta'], 'cloneable': case['cloneable']}
+    if k == 'vspec':
+      self.setup_impl()
+      st = C05._impl.vspec_state(case)
+      if st is None or not st[1]:
+        return None
+      if case.get('mutate'):
+        im = C05._impl
+        j = im.attempt(lambda: im.jv_wire(im.vspec_mutated(im.pg.to_json(im.vspec_build(case)), case['mutate'])))
+        return {'op': 'vspec_load', 'json': j['ok']} if 'ok' in j else None
+      return {'op': 'vspec', 'schema' if st[2] else 'spec': st[0]}
     if k == 'hstore':
       ops = []
       for op in case['ops']:
@@ -1539,6 +1916,9 @@ class C05(Prop):
 
   def compare(self, case, impl_out, model_out):
     k = case['kind']
+    if k == 'dyn':
+      case = {'value': impl_out['wire'], 'kind': 'codec'}
+      k = 'codec'
     if k == 'codec':
       if 'model' not in impl_out:
         return None       # value could not be built / serialised: nothing to compare
@@ -1554,7 +1934,7 @@ class C05(Prop):
         return 'Encodable (Lean) and reserved_shapes (harness) disagree'
       if model_out['encodable_str'] != (not reserved_shapes(case['value'], True)):
         return 'Encodable true (Lean) and reserved_shapes (harness) disagree'
-      if not model_out['conforms']:
+      if not model_out['conforms'] and case.get('auto_import', True) and 'auto_import' not in case:
         return 'the library built a value the model calls non-conforming'
       if case.get('opts'):
         a, b = impl_out['opts_model'], model_out.get('opts')
@@ -1579,6 +1959,11 @@ class C05(Prop):
           if x != y:
             return 'op %d %s: impl=%s model=%s' % (i, json.dumps(case['ops'][i])[:120], json.dumps(x)[:200], json.dumps(y)[:200])
       return None
+    if k == 'vspec':
+      if 'model' not in impl_out:
+        return None
+      a, b = impl_out['model'], model_out
+      return None if a == b else 'vspec: impl=%s model=%s' % (json.dumps(a)[:500], json.dumps(b)[:500])
     if k == 'dna':
       a, b = impl_out['model'], model_out
       return None if a == b else 'dna: impl=%s model=%s' % (json.dumps(a)[:400], json.dumps(b)[:400])
@@ -1600,6 +1985,8 @@ class C05(Prop):
   # -- the property itself ------------------------------------------------------------------
   def oracle(self, case, out):
     k = case['kind']
+    if k == 'dyn':
+      return self.oracle({'kind': 'codec', 'value': out['wire'], 'ap': False}, out)
     if k == 'codec':
       if 'build_error' in out:
         return None
@@ -1612,6 +1999,8 @@ class C05(Prop):
           return {'signature': sig, 'what': '%s %s round trip of %s: %s' % (form, case['opts'], json.dumps(case['value'])[:300], '; '.join(d))}
       for form in ('obj', 'str', 'pickle', 'deepcopy'):
         d = out['checks'][form]
+        if d and case.get('auto_import') is False and form in ('obj', 'str') and d == ['raises TypeError']:
+          continue        # the class is not registered and auto_import is off: the documented TypeError
         if d:
           if form in ('obj', 'str'):
             shapes = sorted(set(reserved_shapes(case['value'], form == 'str')))
@@ -1638,6 +2027,16 @@ class C05(Prop):
       return None
     if k == 'hstore':
       return self.hstore_oracle(case, out['outs'])
+    if k == 'vspec':
+      if out.get('to_json_error'):
+        return {'signature': 'vspec:to_json-raises:' + out['to_json_error'], 'what': json.dumps(case)[:300]}
+      if out.get('problems'):
+        p = out['problems'][0]
+        return {'signature': 'roundtrip:empty-tuple' if out.get('empty_tuple') else
+                             'vspec:tuple-of-size-0' if out.get('empty_fixed_tuple') else
+                             'vspec:' + p.split('] ')[1].split('(')[0].split(':')[0].strip(),
+                'what': '%s: %s' % (json.dumps(case.get('desc') or case.get('extra'))[:300], '; '.join(out['problems']))}
+      return None
     if k == 'dna':
       if 'checks' not in out:
         return None
@@ -1857,6 +2256,10 @@ class C05(Prop):
       return isinstance(case['json'], dict)
     if k == 'dna':
       return isinstance(case['nest'], dict) and 'q' not in case['nest']
+    if k == 'vspec':
+      return 'extra' in case or case['desc']['k'] in ('list', 'tuple', 'dict', 'union')
+    if k == 'dyn':
+      return True
     if k in ('store', 'hstore'):
       ops = case['ops']
       wrote = set()
@@ -1891,6 +2294,8 @@ class C05(Prop):
           h.append('codec:has-' + name)
       if not is_model_tree(t):
         h.append('codec:impl-only')
+      if 'auto_import' in case:
+        h.append('codec:auto_import=%s' % case['auto_import'])
       if case.get('opts'):
         h.append('codec:opts:hide_frozen=%s,hide_default=%s' % (case['opts']['hide_frozen'], case['opts']['hide_default_values']))
       if 'model' in out:
@@ -1900,6 +2305,14 @@ class C05(Prop):
     elif k in ('load', 'load_str'):
       rt = out['model']['rt']
       h.append('%s%s:%s' % (k, '+auto_dict' if case.get('auto_dict') else '', 'ok' if 'ok' in rt else rt['err']))
+    elif k == 'dyn':
+      h.append('dyn:' + case['what'])
+      if 'model' in out:
+        h.append('dyn:rt=' + ('ok' if 'ok' in out['model']['rt'] else out['model']['rt']['err']))
+    elif k == 'vspec':
+      h.append('vspec:' + (out.get('kind') or ('build-error' if 'build_error' in out else 'to_json-error')))
+      if 'model' in out:
+        h.append('vspec:rt=' + ('ok' if 'ok' in out['model']['rt'] else out['model']['rt']['err']))
     elif k == 'dna':
       m = out['model']
       h.append('dna:' + ('rejected-by-constructor' if 'parse' in m else 'rt=' + ('ok' if 'ok' in m['rt'] else m['rt']['err'])))
